@@ -1,6 +1,20 @@
 """Common driver for the solver-level properties (C01, C04, C08, C09, ...)."""
 import vlib, spine, oracles, solver_suite as SS
 
+def extraction_crosscheck(ctx, corpus_texts, cases):
+    """the fast extraction (ExtrOcamlZBigInt + own gcd/log2 directives, part of the trusted base) must agree with the reference
+    extraction (ExtrOcamlBasic only: Z, positive stay the extracted inductive types) on the corpus and a few generated cases"""
+    import os
+    fast, m1 = vlib.build_model(ctx, "fast"); ref, m2 = vlib.build_model(ctx, "ref")
+    if fast is None or ref is None:
+        ctx.ob("extraction:fast-vs-reference", "extraction", False, (m1 or "") + (m2 or "")); return
+    small = sorted(cases, key=lambda c: len(c.text()))[: (3 if ctx.quick() else 25)]
+    txt = "".join(corpus_texts) + "".join(c.text() for c in small)
+    cf = os.path.join(ctx.work, "xcheck.cases"); open(cf, "w").write(txt)
+    rc1, o1 = vlib.run_bin(fast, cf, timeout=900); rc2, o2 = vlib.run_bin(ref, cf, timeout=900)
+    ok = rc1 == 0 and rc2 == 0 and o1 == o2
+    ctx.ob("extraction:fast-vs-reference", "extraction", ok, "" if ok else "rc %d %d; outputs %s" % (rc1, rc2, "differ" if o1 != o2 else "equal"))
+
 def run_solver_property(ctx, prop, codes, extra_theorem_files=(), focus_mix=("mixed", "single", "bounds", "updates"),
                         n_quick=40, n_thorough=400, preconds_quick=("ruiz", "identity"), regen=("consts",), extra_stage=None):
     vlib.regen(ctx, regen)
@@ -19,6 +33,7 @@ def run_solver_property(ctx, prop, codes, extra_theorem_files=(), focus_mix=("mi
     SS.run_suite(ctx, cases[:half] if len(preconds_quick) > 1 else cases, preconds=("ruiz",), name=prop.lower() + "a", codes=codes)
     if len(preconds_quick) > 1:
         SS.run_suite(ctx, cases[half:], preconds=("identity",), name=prop.lower() + "b", codes=codes)
+    extraction_crosscheck(ctx, ctext, cases)
     if extra_stage: extra_stage(ctx)
     # escalation: a proof / translator / correspondence obligation broke but no concrete failing input was found yet:
     # search with a larger budget (longer runs so that SOLVED results occur, more bound patterns) on the real code
